@@ -19,6 +19,27 @@ checks = {
  "C07": ("exhaustive enumeration of constructor argument boxes per year + breadth-first search over call chains with validity invariant",
          "For every year the whole box of civil (month -1..14 x day -1..33) and lunar (month -12..13 x day 0..31) arguments is tried on every constructor and acceptance compared with R1 validity / the image set of the civil sweep; BFS over stepping and conversion chains (depth 3 quick / 4 thorough from 72 seeds) checks the validity invariant on every produced object.",
          "R1 validity; lunar image set from Solar.GetLunar over neighbouring civil years", "4 C07"),
+ "C08": ("exhaustive enumeration of the reachable object graph per state + every exported zero-argument method by reflection; full key-space enumeration of the packed-string decoders",
+         "For every civil day of the year set (time of day rotating over the 26 slot edges) the object graph reachable from the date (25 types) is built and every exported zero-argument method is called; totality, index ranges, vocabulary membership, non-empty strings and duplicate-free lists are checked on every result. The decoders of the packed yi/ji and shen-sha strings are additionally enumerated over their complete key space (60x60, 24x60).",
+         "name-suffix keyed range/vocabulary rules; fixed list of optional (possibly empty) strings stated in evidence assumptions", "4 C08"),
+ "C11": (SWEEP + "; fixed list of ~95 route pairs per moment, functional-dependence tables for eight-character attributes",
+         "Every day x 14 moments: both routes of every pair are executed and compared; eight-character attributes are collapsed by the pillars selected by the current sect and a second value per key is a violation with two witnesses.",
+         "dependence keys are projections of the four pillars (listed in evidence assumptions)", "4 C11"),
+ "C13": (SWEEP + " R4 (rule sentences on the library's own term days and integer day stems)",
+         "Every civil day: presence, absence, name and index of nine-nines, dog days, pentads/phenology, New Year's Eve, Cold Food and She days compared with the rule sentences; index continuity along edges.",
+         "term days are the library's own (C03)", "4 C13"),
+ "C15": (SWEEP + " R1; all seven week starts, both stepping modes, step alphabet",
+         "Every civil day x 7 week starts: week membership, indices, whole-week and month-separated stepping (forward and back) against integer day arithmetic; every month/season/half-year/year unit.",
+         "R1; position semantics of month-separated weeks as worded in the property", "4 C15"),
+ "C16": (SWEEP + " R4 (step rules along every consecutive pair of moments, anchors from integer day numbers)",
+         "Every civil day x (midnight, every Jie instant -1s/+0s, noon, 23:59:59) x three conventions for year/month stars with the step rule on every edge and the 2024 anchor; day star against nearest-jiazi anchors; hour star of both implementations on all 13 slot entries.",
+         "term days/instants are the library's own; tie rules stated in evidence assumptions", "4 C16"),
+ "C17": (SWEEP + "; functional-dependence tables keyed by (month, day, day pillar, term) + table membership",
+         "Every civil day: year offsets, constructor round trips, every predicate collapsed by its defining inputs and compared with the exported tables for non-leap months.",
+         "six-fasting-day predicate also keyed by month length (its definition)", "4 C17"),
+ "C18": (SWEEP + "; functional-dependence tables (differential oracle, two witnesses) + four classical laws",
+         "Every civil day x 13 slot entries: ~110 attribute getters grouped by declared defining inputs, each group collapsed by key across all enumerated states (tables merged across worker processes); mansion order, duty-god, clash and nayin laws on every state/edge.",
+         "grouping of getters by defining input follows the property text", "4 C18"),
  "C19": (SWEEP + " regex + parse-back + strict order of consecutive strings",
          "Every civil day 1..9999 x 26 times: canonical form, parse-back and strict lexicographic increase along the total order of moments (monotone => order-isomorphic => injective); every lunar/Tao/Foto/LunarMonth/LunarYear rendering reached is parsed back with the inverse tables.",
          "R6 parser is the inverse of the exported NUMBER/MONTH/DAY tables (uniqueness asserted)", "4 C19"),
